@@ -3,6 +3,7 @@ import DaeVerif.C03.RouteOf
 import DaeVerif.C03.Janitor
 import DaeVerif.C03.Dae0
 import DaeVerif.C03.Consumer
+import DaeVerif.C03.Pressure
 import DaeVerif.Common.Proto
 /-!
 Line-protocol driver for C03.  The SAME op file is read by the native C driver
@@ -115,6 +116,8 @@ def constTable : List (String × Nat) := [
   ("IpVersionType_4", IpVersionType_4), ("IpVersionType_6", IpVersionType_6),
   ("UdpRoutingResultCacheTtl", UDP_ROUTING_CACHE_TTL), ("tcpRoutingLookupRetryAttempts", TCP_LOOKUP_RETRY_ATTEMPTS),
   ("tcpRoutingLookupRetryDelay", TCP_LOOKUP_RETRY_DELAY), ("OutboundControlPlaneRouting", OUTBOUND_CONTROL_PLANE_ROUTING),
+  ("connStateJanitorPressureEnterUsage", PRESSURE_ENTER_USAGE), ("connStateJanitorPressureExitUsage", PRESSURE_EXIT_USAGE),
+  ("connStateJanitorPressureExitRounds", PRESSURE_EXIT_ROUNDS),
   ("PACKET_HOST", PACKET_HOST), ("PACKET_OTHERHOST", PACKET_OTHERHOST), ("BPF_F_INGRESS", BPF_F_INGRESS)]
 
 def recStr (r : RResult) : String :=
@@ -289,6 +292,13 @@ def handle (st : St) (line : String) : St × String :=
       let hdels := ((st.w.handoff.filter (janitorDeletesHandoff t)).map fun p => hx (encKey p.1)).mergeSort (fun a b => a ≤ b)
       (st, s!"del=[{";".intercalate dels}] hdel=[{";".intercalate hdels}]")
     | _, _ => (st, "bad-op")
+  | ["press", act, below, ov, usage] =>
+    -- updateConnStateJanitorPressure: is the next janitor round aggressive?
+    match act.toNat?, below.toNat?, ov.toNat?, usage.toNat? with
+    | some act, some below, some ov, some usage =>
+      let r := pressureStep ⟨act != 0, below⟩ (ov != 0) usage
+      (st, s!"active={boolStr r.active} below={r.below}")
+    | _, _, _, _ => (st, "bad-op")
   | ["hoexp", now, last] =>
     match now.toNat?, last.toNat? with
     | some now, some last => (st, s!"expired={boolStr (handoffExpired now last)}")
